@@ -94,16 +94,37 @@ example : ValidHostName wwwAppleCom := by
   refine ⟨by decide, ?_⟩
   decide
 
-/-- **SOCKS4a, IPv4 destination**: the plain SOCKS4 request.  A SOCKS4a server reads it as such
-    unless the address is itself of the form 0.0.0.x, x ≠ 0, which SOCKS4A.protocol reserves as
-    the host-name marker ("an inadmissible destination IP address"). -/
-theorem socks4a_ipv4_parse (ip : Vector UInt8 4) (port : Nat) (a : Auth) (ub : Bytes)
-    (hport : port < 65536) (hu : userBytes a = .ok ub) (hnul : userHasNul a = false)
-    (hm : ¬ ∃ d, d ≠ 0 ∧ ip.toList = [0, 0, 0, d]) :
-    mkCfg .socks4a (.ipv4 ip) port a = .ok (.s4 (.ipv4 ip) port a) ∧
-    ∃ msg, firstMessage (.s4 (.ipv4 ip) port a) = .msg msg ∧
+theorem isMarker_false_iff (x y z w : UInt8) (ip : Vector UInt8 4) (hv : ip.toList = [x, y, z, w]) :
+    isMarker ip = false ↔ ¬ (x = 0 ∧ y = 0 ∧ z = 0 ∧ w ≠ 0) := by
+  simp only [isMarker, hv]
+  by_cases hx : x = 0 <;> by_cases hy : y = 0 <;> by_cases hz : z = 0 <;> by_cases hw : w = 0 <;>
+    simp [hx, hy, hz, hw]
+
+/-- which IPv4 destinations the (repaired) SOCKS4a constructor takes: all but the marker
+    addresses 0.0.0.x, x ≠ 0 (and, as for SOCKS4, no NUL in the user id) -/
+theorem socks4a_ipv4_accepts_iff (ip : Vector UInt8 4) (port : Nat) (a : Auth) :
+    (∃ cfg, mkCfg .socks4a (.ipv4 ip) port a = .ok cfg) ↔
+      (isMarker ip = false ∧ userHasNul a = false) := by
+  cases hn : userHasNul a <;> cases hm : isMarker ip <;>
+    simp [mkCfg, socks4Init, hn, checkRemoteHost, hm]
+
+/-- **SOCKS4a, IPv4 destination**: whenever the constructor accepts, the request is the plain
+    SOCKS4 form and a SOCKS4a server - parsing **with** the 4a extension - reads exactly that
+    destination.  (F26, repaired: the addresses 0.0.0.x, x ≠ 0, which SOCKS4A.protocol reserves
+    as the host-name marker, are refused: `rejects_inexpressible`;
+    `socks4a_marker_fails_pinned` keeps the pinned-tree counter-example.) -/
+theorem socks4a_ipv4_parse (ip : Vector UInt8 4) (port : Nat) (a : Auth) (ub : Bytes) (cfg : Cfg)
+    (hport : port < 65536) (hu : userBytes a = .ok ub)
+    (hc : mkCfg .socks4a (.ipv4 ip) port a = .ok cfg) :
+    cfg = .s4 (.ipv4 ip) port a ∧
+    ∃ msg, firstMessage cfg = .msg msg ∧
       Spec.parseSocks4Request true msg = some (⟨4, 1, port, ip.toList, ub, none⟩, []) := by
-  refine ⟨by simp [mkCfg, socks4Init, hnul, checkRemoteHost], ?_⟩
+  obtain ⟨hmk, hnul⟩ := (socks4a_ipv4_accepts_iff ip port a).1 ⟨cfg, hc⟩
+  have hcfg : cfg = .s4 (.ipv4 ip) port a := by
+    simp [mkCfg, socks4Init, hnul, checkRemoteHost, hmk] at hc
+    exact hc.symm
+  subst hcfg
+  refine ⟨rfl, ?_⟩
   have hs := socks4Start_ipv4 ip port a ub hport hu
   refine ⟨_, firstMessage_s4 _ _ _ _ hs, ?_⟩
   obtain ⟨x, y, z, w, hv⟩ := vec4_toList ip
@@ -113,13 +134,14 @@ theorem socks4a_ipv4_parse (ip : Vector UInt8 4) (port : Nat) (a : Auth) (ub : B
     | some up =>
       obtain ⟨u, p⟩ := up
       exact utf8_no_nul hu ((userHasNul_false_iff _).1 hnul u p rfl)
-  rw [hv] at hm ⊢
-  have hm' : ¬ (x = 0 ∧ y = 0 ∧ z = 0 ∧ w ≠ 0) := by
-    rintro ⟨rfl, rfl, rfl, hw⟩
-    exact hm ⟨w, hw, rfl⟩
+  have hm' := (isMarker_false_iff x y z w ip hv).1 hmk
+  rw [hv]
   have := parse4a_nomarker 4 1 (port / 256).toUInt8 (port % 256).toUInt8 x y z w ub [] h0 hm'
   simp only [be16_pack hport] at this
   simpa using this
+
+example : ∃ cfg, mkCfg .socks4a (.ipv4 (vec4 0 0 0 0)) 80 none = .ok cfg :=
+  (socks4a_ipv4_accepts_iff _ _ _).2 ⟨by decide, by decide⟩
 
 /-! ## SOCKS5 -/
 
@@ -259,6 +281,7 @@ theorem socks5_connect_parse (h : Host) (port : Nat) (a : Auth) (cfg : Cfg)
       match h with
       | .ipv4 ip => addr = .ipv4 ip.toList
       | .ipv6 ip => addr = .ipv6 ip.toList
+      | .ipv6z _ => False      -- refused by the constructor (F27, repaired)
       | .name s => ∃ hb, utf8 s = .ok hb ∧ hb.length ≤ 255 ∧ addr = .domain hb := by
   obtain ⟨dst, ab, ms, rfl, hd, _⟩ := mkCfg_socks5_ok hc
   unfold socks5DestinationBytes at hd
@@ -277,6 +300,7 @@ theorem socks5_connect_parse (h : Host) (port : Nat) (a : Auth) (cfg : Cfg)
     have := parseConnect_v6 ip.toList (by simp) (port / 256).toUInt8 (port % 256).toUInt8 []
     simp only [be16_pack hport] at this
     simpa [Cfg.dst, socks5Connect] using this
+  | ipv6z ip => simp at hd
   | name s =>
     cases hu : utf8 s with
     | error e => simp [hu] at hd
@@ -301,13 +325,21 @@ theorem socks5_valid_host_accepted (s : List Nat) (port : Nat) (hs : ValidHostNa
 /-! ## what a protocol cannot express is refused with a SOCKS error, before anything is sent -/
 
 /-- **Rejections.**  Each of these constructor calls raises `SOCKSProtocolError` (a
-    `SOCKSError`); no protocol object exists, so nothing can be sent (`connectOne_ctor_raises`).
-    (1)–(3) destinations SOCKS4 / SOCKS4a cannot name; (4) F15, repaired: a user id containing
-    NUL; (5)(6) RFC 1929 fields that do not encode to 1..255 bytes. -/
+    `SOCKSError`); no protocol object exists, so nothing can be sent (in the model:
+    `connectOne_ctor_raises`; on the real `_connect_one` / `create_connection`: the C16
+    harness's proxy family and C17's `con` family, where a raising constructor leaves every
+    fake connection without a byte).
+    (1)–(3) destinations SOCKS4 / SOCKS4a cannot name (plain or zone-scoped IPv6, host names
+    for SOCKS4); (4) F15, repaired: a user id containing NUL; (5)(6) RFC 1929 fields that do
+    not encode to 1..255 bytes; (7) F26, repaired: the IPv4 destinations 0.0.0.x, x ≠ 0, which a
+    SOCKS4a server reads as "host name follows"; (8) F27, repaired: a zone-scoped IPv6
+    destination, for which RFC 1928 has no field. -/
 theorem rejects_inexpressible :
-    (∀ ip port a, mkCfg .socks4 (.ipv6 ip) port a = .error .socksProtocolError) ∧
+    (∀ ip port a, mkCfg .socks4 (.ipv6 ip) port a = .error .socksProtocolError ∧
+                  mkCfg .socks4 (.ipv6z ip) port a = .error .socksProtocolError) ∧
     (∀ s port a, mkCfg .socks4 (.name s) port a = .error .socksProtocolError) ∧
-    (∀ ip port a, mkCfg .socks4a (.ipv6 ip) port a = .error .socksProtocolError) ∧
+    (∀ ip port a, mkCfg .socks4a (.ipv6 ip) port a = .error .socksProtocolError ∧
+                  mkCfg .socks4a (.ipv6z ip) port a = .error .socksProtocolError) ∧
     (∀ p h port a, p ≠ .socks5 → userHasNul a = true →
         mkCfg p h port a = .error .socksProtocolError) ∧
     (∀ h port u p dst ub, socks5DestinationBytes h port = .ok dst → utf8 u = .ok ub →
@@ -315,8 +347,11 @@ theorem rejects_inexpressible :
         mkCfg .socks5 h port (some (u, p)) = .error .socksProtocolError) ∧
     (∀ h port u p dst ub pb, socks5DestinationBytes h port = .ok dst → utf8 u = .ok ub →
         utf8 p = .ok pb → (pb.length = 0 ∨ 255 < pb.length) →
-        mkCfg .socks5 h port (some (u, p)) = .error .socksProtocolError) := by
-  refine ⟨?_, ?_, ?_, ?_, ?_, ?_⟩
+        mkCfg .socks5 h port (some (u, p)) = .error .socksProtocolError) ∧
+    (∀ ip port a, isMarker ip = true →
+        mkCfg .socks4a (.ipv4 ip) port a = .error .socksProtocolError) ∧
+    (∀ ip port a, mkCfg .socks5 (.ipv6z ip) port a = .error .socksProtocolError) := by
+  refine ⟨?_, ?_, ?_, ?_, ?_, ?_, ?_, ?_⟩
   · intro ip port a
     cases hn : userHasNul a <;> simp [mkCfg, socks4Init, hn, checkRemoteHost]
   · intro s port a
@@ -335,6 +370,13 @@ theorem rejects_inexpressible :
     by_cases hlu : (0 < ub.length && decide (ub.length < 256)) = true
     · simp [mkCfg, hd, socks5Authentication, hu, hp, this, hlu]
     · simp [mkCfg, hd, socks5Authentication, hu, hlu]
+  · intro ip port a hm
+    cases hn : userHasNul a <;> simp [mkCfg, socks4Init, hn, checkRemoteHost, hm]
+  · intro ip port a
+    simp [mkCfg, socks5DestinationBytes]
+
+example : isMarker (vec4 0 0 0 1) = true ∧ isMarker (vec4 0 0 0 255) = true ∧
+    isMarker (vec4 0 0 0 0) = false ∧ isMarker (vec4 0 0 1 0) = false := by decide
 
 example : userHasNul (some ([97, 0, 98], [112])) = true := by decide
 example : ∃ ub, utf8 (List.replicate 128 0xE9) = .ok ub ∧ 255 < ub.length :=
@@ -345,12 +387,19 @@ example : ∃ ub, utf8 (List.replicate 128 0xE9) = .ok ub ∧ 255 < ub.length :=
 theorem connectOne_ctor_raises (e : PyExc) (a : Attempt) (as : List Attempt) (i : Nat)
     (last : Option PyExc) : connectOne (.error e) (a :: as) i last = .escaped e := rfl
 
+/-- ... and no connection is made, let alone written to: `_connect_one` with a raising
+    constructor tries no entry at all -/
+theorem connectOneSent_ctor_raises (e : PyExc) (as : List Attempt) :
+    connectOneSent (.error e) as = [] := by
+  cases as <;> rfl
+
 /-- **Completeness**: everything the protocols *can* express is accepted (so the parse theorems
-    above are not vacuous): SOCKS4 with any IPv4 address, SOCKS4a with any IPv4 address or host
-    name, SOCKS5 with any destination, user ids without NUL, RFC 1929 fields of 1..255 bytes. -/
+    above are not vacuous): SOCKS4 with any IPv4 address, SOCKS4a with any IPv4 address other
+    than the marker addresses 0.0.0.x (x ≠ 0) or any host name, SOCKS5 with any destination, user ids without NUL, RFC 1929 fields of 1..255 bytes. -/
 theorem accepts_expressible :
     (∀ ip port a, userHasNul a = false → ∃ cfg, mkCfg .socks4 (.ipv4 ip) port a = .ok cfg) ∧
-    (∀ ip port a, userHasNul a = false → ∃ cfg, mkCfg .socks4a (.ipv4 ip) port a = .ok cfg) ∧
+    (∀ ip port a, userHasNul a = false → isMarker ip = false →
+        ∃ cfg, mkCfg .socks4a (.ipv4 ip) port a = .ok cfg) ∧
     (∀ s port a, userHasNul a = false → ∃ cfg, mkCfg .socks4a (.name s) port a = .ok cfg) ∧
     (∀ h port dst, socks5DestinationBytes h port = .ok dst →
         ∃ cfg, mkCfg .socks5 h port none = .ok cfg) ∧
@@ -359,7 +408,7 @@ theorem accepts_expressible :
         1 ≤ pb.length → pb.length ≤ 255 → ∃ cfg, mkCfg .socks5 h port (some (u, p)) = .ok cfg) := by
   refine ⟨?_, ?_, ?_, ?_, ?_⟩
   · intro ip port a hn; simp [mkCfg, socks4Init, hn, checkRemoteHost]
-  · intro ip port a hn; simp [mkCfg, socks4Init, hn, checkRemoteHost]
+  · intro ip port a hn hm; simp [mkCfg, socks4Init, hn, checkRemoteHost, hm]
   · intro s port a hn; simp [mkCfg, socks4Init, hn, checkRemoteHost]
   · intro h port dst hd; simp [mkCfg, hd, socks5Authentication]
   · intro h port dst u p ub pb hd hu hp h1 h2 h3 h4
@@ -382,6 +431,60 @@ theorem socks4_nul_pinned_witness :
     mkCfg .socks4 (.ipv4 (vec4 1 2 3 4)) 80 (some ([97, 0, 98], [112])) =
       .error .socksProtocolError := by
   decide
+
+/-- **F26, pinned tree**: `SOCKS4a._check_remote_host` without the marker check accepts the
+    IPv4 destination 0.0.0.5 and the request then sent is the plain SOCKS4 form
+    `04 01 00 50 00 00 00 05 00`.  A SOCKS4a server sees DSTIP 0.0.0.x, x ≠ 0, and waits for a
+    host name that never comes: the request does not parse (`none`), i.e. the full-strength
+    SOCKS4a statement fails on the pinned tree.  The repaired constructor refuses. -/
+theorem socks4a_marker_fails_pinned :
+    checkRemoteHostPinned .socks4a (.ipv4 (vec4 0 0 0 5)) = .ok () ∧
+    firstMessage (.s4 (.ipv4 (vec4 0 0 0 5)) 80 none) = .msg [4, 1, 0, 80, 0, 0, 0, 5, 0] ∧
+    Spec.parseSocks4Request true [4, 1, 0, 80, 0, 0, 0, 5, 0] = none ∧
+    Spec.parseSocks4Request false [4, 1, 0, 80, 0, 0, 0, 5, 0] =
+      some (⟨4, 1, 80, [0, 0, 0, 5], [], none⟩, []) ∧
+    mkCfg .socks4a (.ipv4 (vec4 0 0 0 5)) 80 none = .error .socksProtocolError := by
+  decide
+
+/-- the full-strength statement for SOCKS4a with an IPv4 destination, about the **pinned**
+    `_check_remote_host`: every accepted IPv4 destination is read back by a SOCKS4a server -/
+def socks4a_ipv4_full_pinned : Prop :=
+  ∀ (ip : Vector UInt8 4) (port : Nat), port < 65536 →
+    checkRemoteHostPinned .socks4a (.ipv4 ip) = .ok () →
+    ∃ msg, firstMessage (.s4 (.ipv4 ip) port none) = .msg msg ∧
+      Spec.parseSocks4Request true msg = some (⟨4, 1, port, ip.toList, [], none⟩, [])
+
+theorem socks4a_ipv4_full_pinned_fails : ¬ socks4a_ipv4_full_pinned := by
+  intro h
+  obtain ⟨msg, h1, h2⟩ := h (vec4 0 0 0 5) 80 (by decide) (by decide)
+  have : msg = [4, 1, 0, 80, 0, 0, 0, 5, 0] := by
+    have h3 : firstMessage (.s4 (.ipv4 (vec4 0 0 0 5)) 80 none) =
+        .msg [4, 1, 0, 80, 0, 0, 0, 5, 0] := by decide
+    rw [h3] at h1
+    exact (Res.msg.inj h1).symm
+  subst this
+  revert h2
+  decide
+
+def probeV6 : Vector UInt8 16 := ⟨#[0, 1, 2, 3, 4, 5, 6, 7, 8, 9, 10, 11, 12, 13, 14, 15], rfl⟩
+
+/-- **F27, pinned tree**: `SOCKS5._destination_bytes` sends a zone-scoped IPv6 destination
+    (`fe80::1%eth0`) as the bare 16 address bytes - byte for byte what it sends for the
+    unscoped address, so the zone is silently lost; RFC 1928 cannot express it.  The repaired
+    constructor refuses. -/
+theorem socks5_scoped_ipv6_fails_pinned :
+    (∀ ip port, socks5DestinationBytesPinned (.ipv6z ip) port =
+        socks5DestinationBytesPinned (.ipv6 ip) port) ∧
+    socks5DestinationBytesPinned (.ipv6z probeV6) 80 =
+      .ok [4, 0, 1, 2, 3, 4, 5, 6, 7, 8, 9, 10, 11, 12, 13, 14, 15, 0, 80] ∧
+    (∀ ip port a, mkCfg .socks5 (.ipv6z ip) port a = .error .socksProtocolError) ∧
+    (∀ h port, (∀ ip, h ≠ .ipv6z ip) →
+        socks5DestinationBytesPinned h port = socks5DestinationBytes h port) := by
+  refine ⟨fun _ _ => rfl, by decide, fun ip port a => by simp [mkCfg, socks5DestinationBytes], ?_⟩
+  intro h port hne
+  cases h with
+  | ipv6z ip => exact absurd rfl (hne ip)
+  | _ => rfl
 
 /-- a lone surrogate has no UTF-8 form: SOCKS5's constructor raises `UnicodeEncodeError`;
     SOCKS4's constructor succeeds and the first `next_message()` raises it (nothing was sent).
@@ -433,7 +536,6 @@ def dialogue (p : Proto) (h : Host) (port : Nat) (a : Auth) (chunks : List Bytes
   | .error _ => none
 
 def probeAuth : Auth := some ([97, 98], [99, 100, 101])
-def probeV6 : Vector UInt8 16 := ⟨#[0, 1, 2, 3, 4, 5, 6, 7, 8, 9, 10, 11, 12, 13, 14, 15], rfl⟩
 def probeName : List Nat := [97, 46, 98, 99]
 
 /-- the probe requests produced by the real classes are what the model emits -/
@@ -454,18 +556,28 @@ def accepts (p : Proto) (h : Host) (a : Auth) : Bool :=
   | .ok _ => true
   | .error _ => false
 
-/-- which destination kinds each class accepts -/
+/-- which destination kinds each class accepts: IPv4, IPv6, host name, the SOCKS4a marker
+    form 0.0.0.5 (F26) and a zone-scoped IPv6 address (F27) -/
 theorem facts_accepts :
     Facts.C16.socks4Accepts =
       [accepts .socks4 (.ipv4 (vec4 1 2 3 4)) none, accepts .socks4 (.ipv6 probeV6) none,
-       accepts .socks4 (.name probeName) none] ∧
+       accepts .socks4 (.name probeName) none, accepts .socks4 (.ipv4 (vec4 0 0 0 5)) none,
+       accepts .socks4 (.ipv6z probeV6) none] ∧
     Facts.C16.socks4aAccepts =
       [accepts .socks4a (.ipv4 (vec4 1 2 3 4)) none, accepts .socks4a (.ipv6 probeV6) none,
-       accepts .socks4a (.name probeName) none] ∧
+       accepts .socks4a (.name probeName) none, accepts .socks4a (.ipv4 (vec4 0 0 0 5)) none,
+       accepts .socks4a (.ipv6z probeV6) none] ∧
     Facts.C16.socks5Accepts =
       [accepts .socks5 (.ipv4 (vec4 1 2 3 4)) none, accepts .socks5 (.ipv6 probeV6) none,
-       accepts .socks5 (.name probeName) none] := by
+       accepts .socks5 (.name probeName) none, accepts .socks5 (.ipv4 (vec4 0 0 0 5)) none,
+       accepts .socks5 (.ipv6z probeV6) none] := by
   decide
+
+/-- **Assumption made visible**: credentials are a `SOCKSUserAuth`; any other object - here the
+    plain tuple `("ab", "cde")` - is treated exactly like `None` (no method 2 offered, nothing
+    of it sent) -/
+theorem facts_tuple_auth_is_no_auth :
+    Facts.C16.socks5TupleAuthSel0 = Facts.C16.socks5NoAuthSel0 := by decide
 
 /-- the accepted RFC 1929 field lengths are exactly 1..255 -/
 theorem facts_credential_lengths :
